@@ -15,7 +15,8 @@ MANIFEST = {
           'the error iff nobody covers it; the dropped-request, missing-key and no-cluster outcomes are unreachable for a named cluster and a keyed command), C09_no_cluster, C09_multi_refused + C09_same_slot '
           '(MGET/MSET/MSETNX/multi-DEL/multi-EXISTS with active redirection off, and multi-key EVAL always, are refused and send nothing when the guarded keys are none or hash to two slots), '
           'C09_multi_key (everything a data command causes to be sent is the command itself routed by its own key or a sub command whose keys are keys of the command, all in one slot, routed by that slot), '
-          'C09_eval_keys. The model mirrors utils.rs get_hash_tag/generate_slot/same_slot, slot.rs, the send path of cluster.rs/manager.rs, command.rs get_key and the multi-key handlers of executor.rs, '
+          'C09_eval_keys. Key level x slot level: C09_key_slot_in_range_for_routing (slot k < SLOT_NUM is exactly the premise of the route group\'s C02_reachable_route), C09_key_route / C09_key_route_dynamic / C09_key_progress '
+          '(for every store reached by ANY broker operation sequence, served cluster view, consistent phases, every KEY and start proxy, every chase for slot k ends at the designated node within the C02 bounds; named propositions of Proofs/SlotProofsBroker.v). The model mirrors utils.rs get_hash_tag/generate_slot/same_slot, slot.rs, the send path of cluster.rs/manager.rs, command.rs get_key and the multi-key handlers of executor.rs, '
           'and is tied to the code by running the same case lines through the real functions and a real in-process proxy.',
   'note': 'Coq kernel; closed under the global context; extraction (ExtrOcamlBasic, List functions inlined) + OCaml driver; CRC16/XMODEM is defined bitwise in the model and the crc16 crate '
           'is compared against it and against an independent Python table implementation. Hook: cfg-guarded re-export proxy::verif_slot of the private slot module. '
